@@ -292,12 +292,16 @@ var vhShapes = [][]string{
 	{"BOUNDS", "5", "5", "20", "20"},     // 4 rectangle straddling the north-east corner, centre (12.5,12.5)
 	{"BOUNDS", "20", "20", "30", "30"},   // 5 rectangle outside, centre (25,25)
 	{"POINT", "5", "15"},                 // 6 point east, centre (15,5)
+	// two triangles that split one box (8..20 in both axes) along its diagonal: the same bounding rectangle, the
+	// first lies beyond the area's corner, the second reaches into the area
+	{"OBJECT", `{"type":"Polygon","coordinates":[[[20,8],[20,20],[8,20],[20,8]]]}`}, // 7 far triangle, centre (14,14)
+	{"OBJECT", `{"type":"Polygon","coordinates":[[[8,8],[20,8],[8,20],[8,8]]]}`},    // 8 near triangle, centre (14,14)
 }
 
 // inside by fence kind (0 = WITHIN, 1 = INTERSECTS)
-var vhShapeInside = [2][7]bool{
-	{true, false, false, true, false, false, false},
-	{true, false, false, true, true, false, false},
+var vhShapeInside = [2][9]bool{
+	{true, false, false, true, false, false, false, false, false},
+	{true, false, false, true, true, false, false, false, true},
 }
 
 // the segment between the centres of shapes a and b meets the area (computed by hand, see the table above)
@@ -306,13 +310,13 @@ func vhShapesCross(a, b int) bool {
 		a, b = b, a
 	}
 	switch {
-	case a == 1 && (b == 2 || b == 4 || b == 5 || b == 6):
+	case a == 1 && (b == 2 || b == 4 || b == 5 || b == 6 || b == 7 || b == 8):
 		return true // from the west point every path to the east side passes through the area
 	}
 	return false
 }
 
-//verif:cfg b_fence=WITHIN|INTERSECTS_BOUNDS_0_0_10_10 b_detect=default|inside,outside|enter,exit,cross b_objects=7_(points_and_rectangles:_inside,_straddling,_outside) b_sequence=3_SETs_of_one_object b_filter=none|MATCH_t*|WHERE_speed_0_10_(object_has_speed_5) ignorego=1
+//verif:cfg b_fence=WITHIN|INTERSECTS_BOUNDS_0_0_10_10 b_detect=default|inside,outside|enter,exit,cross b_objects=9_(points,_rectangles_and_two_triangles_sharing_one_bounding_box:_inside,_straddling,_outside) b_sequence=3_SETs_of_one_object b_filter=none|MATCH_t*|WHERE_speed_0_10_(object_has_speed_5) ignorego=1
 func VH_C05_shapes_sequence() {
 	s := vhServer()
 	k := vchoose(2)
